@@ -78,6 +78,41 @@ def heartbeat_callbacks(chk: Check, repo: Repo) -> None:
         chk.ob("heartbeat-callback-reports-every-failed-request", m.site(), not problems, f"{m.qualname}: " + ("request failure -> (False, status); normal completion -> (True, None); no channel -> None" if not problems else "; ".join(problems)), key=f"callback|{m.qualname}")
 
 
+def reconnect_stops_heartbeat(chk: Check, repo: Repo, owner_classes: set[str]) -> None:
+    """"stops quietly once the connection is gone ... declared lost, once": whoever hands the lost connection over to a
+    reconnect task stops the heartbeat itself, in the same step - a heartbeat that is already woken in this loop
+    iteration otherwise runs before the reconnect task does: it repeats its request on the dead connection and declares
+    the same connection lost a second time."""
+    n = 0
+    for f in repo.all_functions():
+        if f.cls is None or not any(c.name in owner_classes for c in repo.mro(f.cls)):
+            continue
+        cfg = CFG(f.node)
+        # methods of the class that stop the heartbeat on every path
+        def stops(call: ast.Call, depth: int = 2) -> bool:
+            nm = call_name(call)
+            if nm == "self.stop_heartbeat" or nm == "self._heartbeat.stop":
+                return True
+            if nm.startswith("self.") and nm.count(".") == 1 and depth > 0:
+                m = repo.lookup_method(f.cls, nm[5:])
+                if m is not None and not m.is_async:
+                    mc = CFG(m.node)
+                    hit = [x.id for x in mc.nodes if x.kind == "stmt" and x.ast is not None and any(stops(c2, depth - 1) for c2 in calls(x.ast))]
+                    return bool(hit) and mc.all_paths_hit(mc.entry, hit, ends=[mc.exit])
+            return False
+        for node in cfg.nodes:
+            if node.kind != "stmt" or node.ast is None:
+                continue
+            for c in calls(node.ast):
+                if call_name(c) == "asyncio.create_task" and c.args and isinstance(c.args[0], ast.Call) and "reconnect" in call_name(c.args[0]):
+                    n += 1
+                    chk.unit(f)
+                    stoppers = [x.id for x in cfg.nodes if x.kind == "stmt" and x.ast is not None and x.id != node.id and any(stops(c2) for c2 in calls(x.ast))]
+                    ok = any(cfg.dominates(sid, node.id) for sid in stoppers)
+                    chk.ob("lost-connection-stops-the-heartbeat-at-once", f.site(c), ok, f"{f.qualname} starts {ast.unparse(c.args[0])} as a task" + (" after stopping the heartbeat" if ok else " and leaves the heartbeat running until that task gets to run"), key=f"reconnect-stop|{f.qualname}")
+    chk.floor("reconnect task creation sites in heartbeat owners", n, 1)
+
+
 def run(chk: Check, repo: Repo) -> None:
     heartbeat_callbacks(chk, repo)
     fi = repo.func(MOD, "ConnectionHeartbeat._run")
@@ -191,3 +226,4 @@ def run(chk: Check, repo: Repo) -> None:
         kw = {k.arg for k in c.keywords}
         chk.ob("owner-passes-callbacks", f.site(c), {"send_connectionstate", "on_failure"} <= kw or len(c.args) >= 3,
                f"{ast.unparse(c)[:120]}", key=f"owner|{f.ref}")
+    reconnect_stops_heartbeat(chk, repo, {f.cls.name for f, _ in owners if f.cls is not None})
